@@ -95,3 +95,60 @@ Qed.
 (* claims_match never lets a null through, and a null spec matches everything else *)
 Theorem claims_match_null c : claims_match (Some VNone) c = false /\ claims_match None c = false.
 Proof. split; reflexivity. Qed.
+
+(* ---- the order in which the scopes are listed does not matter: the restriction derived from the scopes has the same
+   claim names, each with the null ("anything") specification ---- *)
+Lemma aset_keys_rev {V} k (v : V) d x : x = k \/ In x (keys d) -> In x (keys (aset k v d)).
+Proof.
+  induction d as [|[k' v'] r IH]; cbn.
+  - intros [->|[]]; auto.
+  - destruct (str_eqb k k') eqn:E; cbn.
+    + apply str_eqb_eq in E. subst k'. intros [->|[H|H]]; auto.
+    + intros [->|[H|H]]; auto.
+Qed.
+Lemma update_keys_rev u : forall d x, In x (keys d) \/ In x (keys u) -> In x (keys (update d u)).
+Proof.
+  induction u as [|[k v] r IH]; intros d x H; cbn in *; [tauto|].
+  apply IH. destruct H as [H|[->|H]]; auto; left; apply aset_keys_rev; auto.
+Qed.
+Definition all_null (d : restriction) : Prop := forall x s, assoc x d = Some s -> s = None.
+Lemma all_null_aset k d : all_null d -> all_null (aset k None d).
+Proof.
+  intros H x s. destruct (str_eqb k x) eqn:E.
+  - apply str_eqb_eq in E. subst. rewrite assoc_aset_same. intro H1. now inversion H1.
+  - apply str_eqb_neq in E. rewrite assoc_aset_other by auto. apply H.
+Qed.
+Lemma all_null_update u : forall d, all_null d -> (forall k v, In (k, v) u -> v = None) -> all_null (update d u).
+Proof.
+  induction u as [|[k v] r IH]; intros d Hd Hu; cbn; auto.
+  apply IH; [|intros k' v' Hin; apply (Hu k' v'); now right].
+  rewrite (Hu k v) by now left. now apply all_null_aset.
+Qed.
+Lemma keys_flat_map {A V} (f : A -> list (pystr * V)) l k :
+  In k (keys (flat_map f l)) <-> exists a, In a l /\ In k (keys (f a)).
+Proof.
+  unfold keys. rewrite in_map_iff. split.
+  - intros ([k' v]&E&H). apply in_flat_map in H as (a&Ha&Hf). exists a. split; auto. apply in_map_iff. exists (k', v). auto.
+  - intros (a&Ha&H). apply in_map_iff in H as ([k' v]&E&Hf). exists (k', v). split; auto. apply in_flat_map. eauto.
+Qed.
+Theorem scope_order_irrelevant pm allowed cmap s1 s2 :
+  (forall x, In x s1 <-> In x s2) ->
+  (forall k, In k (keys (scopes_to_claims pm allowed cmap s1)) <-> In k (keys (scopes_to_claims pm allowed cmap s2)))
+  /\ all_null (scopes_to_claims pm allowed cmap s1) /\ all_null (scopes_to_claims pm allowed cmap s2).
+Proof.
+  intros Hs. unfold scopes_to_claims, convert_scopes2claims.
+  set (al := match allowed with Some a => a | None => List.map fst pm end).
+  set (m := match cmap with Some ((_ :: _) as cm) => cm | _ => pm end).
+  set (f := fun s : pystr => match assoc s m with Some cl => List.map (fun c => (c, @None (list spec_item))) cl | None => [] end).
+  assert (Hf : forall a b, (forall x, In x a <-> In x b) ->
+               forall k, In k (keys (update [] (flat_map f (filter_scopes al a)))) -> In k (keys (update [] (flat_map f (filter_scopes al b))))).
+  { intros a b Hab k H. apply update_keys in H as [[]|H]. apply update_keys_rev. right.
+    apply keys_flat_map in H as (s&Hin&Hk). apply keys_flat_map. exists s. split; auto.
+    unfold filter_scopes in *. apply filter_In in Hin as [H1 H2]. apply filter_In. split; auto. now apply Hab. }
+  assert (Hn : forall a, all_null (update [] (flat_map f (filter_scopes al a)))).
+  { intros a. apply all_null_update; [intros x s H; discriminate|].
+    intros k v H. apply in_flat_map in H as (s&_&H). unfold f in H. destruct (assoc s m); [|destruct H].
+    apply in_map_iff in H as (c&E&_). now inversion E. }
+  split; [|split; apply Hn].
+  intros k. split; apply Hf; auto. intros x. symmetry. apply Hs.
+Qed.
